@@ -12,7 +12,9 @@ import (
 	"bufio"
 	"bytes"
 	"context"
+	"encoding/base64"
 	"encoding/binary"
+	"encoding/hex"
 	"errors"
 	"flag"
 	"fmt"
@@ -25,6 +27,7 @@ import (
 
 	"github.com/godaddy/asherah/go/appencryption"
 	"github.com/godaddy/asherah/go/appencryption/pkg/crypto/aead"
+	sdklog "github.com/godaddy/asherah/go/appencryption/pkg/log"
 	"github.com/godaddy/asherah/go/appencryption/pkg/kms"
 	"github.com/godaddy/asherah/go/appencryption/pkg/persistence"
 	"github.com/godaddy/asherah/go/securememory"
@@ -45,6 +48,8 @@ var out = bufio.NewWriterSize(os.Stdout, 1<<20)
 // world: shared across factories of one case
 
 type world struct {
+	logLines []string
+	curPay   []byte
 	inuse0   int64
 	now      time.Time
 	faults   []string
@@ -91,6 +96,46 @@ func kidName(id string) string {
 		return "ik" + id[len(pre):len(id)-len(suf)]
 	}
 	return "other"
+}
+
+// ---- capturing logger (C03: no plaintext key or payload bytes in any debug log line) -----------
+
+type capLogger struct{ w *world }
+
+func (c capLogger) Debugf(format string, v ...interface{}) {
+	c.w.logLines = append(c.w.logLines, fmt.Sprintf(format, v...))
+}
+
+// renderings of a byte string a careless log statement could produce
+func renderings(b []byte) []string {
+	if len(b) < 4 {
+		return nil
+	}
+	dec := strings.Trim(fmt.Sprint(b), "[]")
+	return []string{string(b), hex.EncodeToString(b), base64.StdEncoding.EncodeToString(b), dec,
+		fmt.Sprintf("% x", b), strings.Trim(fmt.Sprintf("%#v", b), "[]byte{}")}
+}
+
+// logLeak scans the lines logged during the operation for any key material or the payload.
+func (w *world) logLeak() string {
+	if len(w.logLines) == 0 {
+		return "clean"
+	}
+	all := strings.Join(w.logLines, "\n")
+	w.logLines = nil
+	var secrets [][]byte
+	secrets = append(secrets, w.mats...)
+	if len(w.curPay) >= 8 {
+		secrets = append(secrets, w.curPay)
+	}
+	for _, sec := range secrets {
+		for _, r := range renderings(sec) {
+			if r != "" && strings.Contains(all, r) {
+				return "leak"
+			}
+		}
+	}
+	return "clean"
 }
 
 // ---- spy metastore ---------------------------------------------------------------------------
@@ -380,6 +425,7 @@ func newWorld() *world {
 		w.inner = fakeFactory{rng: keyRng}
 	}
 	appencryption.VerifSetClock(func() time.Time { return w.now })
+	sdklog.SetLogger(capLogger{w})
 	return w
 }
 
@@ -495,7 +541,7 @@ func (w *world) parentSK(d *appencryption.DataRowRecord) string {
 }
 
 func (w *world) tail() string {
-	return fmt.Sprintf(" | calls=%s | %s | dirty=%d | rows=%d", strings.Join(w.calls, ","), w.secLine(), w.dirty(), w.rowCount())
+	return fmt.Sprintf(" | calls=%s | %s | dirty=%d | rows=%d | log=%s", strings.Join(w.calls, ","), w.secLine(), w.dirty(), w.rowCount(), w.logLeak())
 }
 
 // mapStore is the caller-side persistence used with Session.Store / Session.Load.
@@ -646,6 +692,7 @@ func (w *world) exec(line string) {
 		case "enc":
 			pay := atoi(f[2])
 			data := payloadBytes(pay)
+			w.curPay = append([]byte(nil), data...)
 			orig := append([]byte(nil), data...)
 			var d *appencryption.DataRowRecord
 			var err error
